@@ -294,7 +294,7 @@ func c17Layout(c *Ctx) {
 	if viaAssert != nil {
 		keep := w.under(assumeAtom(same, true), assumeAtom(okOf(viaAssert), true))
 		mn, _, _ := countSites(blockStart(loop.Body), func(b *ssa.BasicBlock, i int) bool {
-			return keep(b, i) && b.Succs[i] != loop.Header
+			return keep(b, i) && b != loop.Header
 		}, inSet(procs))
 		c.check(mn >= 1, rule, "ForEachVia/decoded-visited", w.ipos(viaAssert), "every already-decoded Via header is visited", "a matching, already decoded Via header can be skipped")
 	} else {
@@ -311,7 +311,7 @@ func c17Layout(c *Ctx) {
 		}
 		keep := w.under(as...)
 		mn, mx, _ := countSites(blockStart(loop.Body), func(b *ssa.BasicBlock, i int) bool {
-			return keep(b, i) && b.Succs[i] != loop.Header
+			return keep(b, i) && b != loop.Header
 		}, inSet(procs))
 		c.check(mn == 1 && mx == 1, rule, "ForEachVia/raw-visited", w.ipos(pv), "every raw decodable Via header is decoded and visited once", fmt.Sprintf("a matching raw Via header is visited min=%d max=%d times", mn, mx))
 	} else {
